@@ -357,9 +357,11 @@ func runSequence(ctx context.Context, r *lib.Run, seq int, pending *[]func()) (b
 				case "file", "badmeta", "misnamed", "badmeta-trailing-output", "badmeta-empty-field":
 					path = exe
 				case "dir-special-files":
-					// a named pipe and a socket lie in the source directory, one sorting before and one after everything else:
+					// sockets and a device node lie in the source directory, sorting before, between and after everything else:
 					// they are no regular files, nothing of them is installed - and nothing about them stops the installation
-					syscall.Mkfifo(filepath.Join(src, "aaa-control.fifo"), 0o644)
+					// (sockets and a device node rather than pipes: this check calls the manager in-process, and opening a pipe blocks)
+					syscall.Mknod(filepath.Join(src, "aaa-control.sock"), syscall.S_IFSOCK|0o644, 0)
+					syscall.Mknod(filepath.Join(src, "mmm-null.dev"), syscall.S_IFCHR|0o644, 1<<8|3)
 					syscall.Mknod(filepath.Join(src, "zzz-agent.sock"), syscall.S_IFSOCK|0o644, 0)
 					addExtra("LICENSE", "lic", 0o644)
 				case "dir-extra-notation-named-before":
